@@ -134,7 +134,7 @@ def run_config(cx, cfg, prog):
             try:
                 importlib.import_module('rules.' + prop).check(scx)
             except report.AnchorLost as e:
-                inv.violation('%s|anchor' % name, 'the check establishing %s lost its anchor: %s' % (name, e))
+                cx.check.error('invariant %s: the check establishing it (%s) lost its anchor: %s' % (name, prop, e))
                 continue
             finally:
                 _DEP_DEPTH[0] -= 1
